@@ -106,6 +106,32 @@ Theorem po_type_mismatch : forall s n tag dflt,
 Proof. exact po_get_mismatch. Qed.
 Print Assumptions po_type_mismatch.
 
+(* setParam with ANY argument form (value, string literal, char array, const char*, an Any carrying a value, short,
+   enum): what counts for the later read is the type the Any actually STORES (Model.store_of: arrays decay to const
+   char*, an Any argument contributes its payload type, nothing is promoted) - reading with that type returns the
+   value and marks the parameter queried, reading with any other type (the STATIC type of the argument included,
+   when it differs) yields the default and changes nothing *)
+Theorem po_set_then_get_stored_type : forall s n form v t w d,
+  store_of form v = Some (t, w) ->
+  let s' := fst (po_step s (PSet n form v)) in
+  snd (po_step s' (PGet n t d)) = OVal w /\
+  option_map p_query (po_find (fst (po_step s' (PGet n t d))) n) = Some true /\
+  (forall t', t' <> t -> po_step s' (PGet n t' d) = (s', OVal d)).
+Proof. exact po_set_get_stored. Qed.
+Print Assumptions po_set_then_get_stored_type.
+
+(* an empty Any passed to setParam empties the parameter: every typed read gives the default *)
+Theorem po_set_empty_any_reads_default : forall s n v tag d,
+  let s' := fst (po_step s (PSet n 10 v)) in po_step s' (PGet n tag d) = (s', OVal d).
+Proof. exact po_set_empty_any. Qed.
+Print Assumptions po_set_empty_any_reads_default.
+
+Example po_forms_example :
+  map (fun '(o, _) => o)
+      (snd (po_run [PSet 1 4 7; PGet 1 4 99; PSet 1 7 5; PGet 1 4 98; PGet 1 0 97; PSet 1 11 3; PGet 1 0 96; PGet 1 5 95]))
+  = [OUnit; OVal 7; OUnit; OVal 98; OVal 5; OUnit; OVal 96; OVal 3].
+Proof. vm_compute. reflexivity. Qed.
+
 (* a successful read returns the stored value and marks the parameter queried *)
 Theorem po_query_set : forall s n tag dflt p v,
   po_find s n = Some p -> p_data p = Some (tag, v) ->
